@@ -377,6 +377,7 @@ func c05PacketPSI(res *engine.Result, in []byte) {
 			}
 		}
 		sink(psi.FilterPMTPacketsToPids([]*packet.Packet{&p, &p}, []int{0x1FF0}))
+		sink(psi.FilterPMTPacketsToPids([]*packet.Packet{&p}, []int{0x65, psi.PidNotFound, 8192, -1}))
 		sink(psi.FilterPMTPacketsToPids([]*packet.Packet{&p}, nil))
 	})
 	g(res, "Accumulator(PmtAccumulatorDoneFunc)", func() {
@@ -583,7 +584,9 @@ func init() {
 		lists := [][]int{{0x65, 0x66}}
 		if pmt, err := psi.NewPMT(in); err == nil && pmt != nil {
 			if ps := pmt.Pids(); len(ps) > 0 {
-				lists = append(lists, append([]int{}, ps...), []int{ps[len(ps)-1], 0x1FF0})
+				// ... and a present PID next to values no PID can have (psi.PidNotFound is one of them)
+				lists = append(lists, append([]int{}, ps...), []int{ps[len(ps)-1], 0x1FF0},
+					[]int{ps[0], psi.PidNotFound}, []int{8192, ps[0]}, []int{ps[0], -1})
 			}
 		}
 		for _, l := range lists {
@@ -1316,6 +1319,15 @@ func c05StreamAlphabet() [][188]byte {
 		junk[i] = byte(0x80 + i%64)
 	}
 	out = append(out, junk)
+	// 14, 15: a unit on the PMT PID whose complete sections reach beyond the first packet and whose last
+	// section stays incomplete (a reader that remembers how far it got must forget it when the next unit start
+	// makes the accumulator begin again)
+	priv := func(n int, fill byte) []byte { // private section of n bytes in total
+		return append([]byte{0x42, 0x30 | byte((n-3)>>8), byte(n - 3)}, bytes.Repeat([]byte{fill}, n-3)...)
+	}
+	unit := append(append(append(ref.Pointer(0), priv(100, 0x11)...), priv(150, 0x22)...), priv(303, 0x33)[:117]...)
+	out = append(out, ref.CarryPayload(0x64, true, 9, unit[:184]))   // 14 unit start: one section and 83 bytes of the next
+	out = append(out, ref.CarryPayload(0x64, false, 10, unit[184:])) // 15 its continuation: 67 bytes, then 117 of 303
 	c05StreamAlpha = out
 	return out
 }
@@ -1528,7 +1540,7 @@ func init() {
 			c05Scenario("generated-pmt", "gen-pmt", "structure-aware PMT inputs: 4 reference-built tables x every combination of deltas on four RELATED length fields (section_length -8..+8, program_info_length -3..+3, ES_info_length of the last described stream -6..+6, its last descriptor_length -4..+4), each with the stale CRC_32 and with a CRC_32 recomputed where the new section_length puts it; run through NewPMT (all getters, printers), the accumulator completion predicate and ExtractCRC."+common),
 			c05Scenario("periodic-long-payloads", "gen-periodic", "cursor-cycle family for the PMT entry points that take a whole PID payload (NewPMT, the accumulator completion predicate, FilterPMTPacketsToPids on the payload cut into 184-byte packets): pointer_field 0 | a first section with table_id {00, 42, 02} and section_length 0..8 | a well-formed one-stream PMT section | 0xFF, overlaid with a chain of elementary-stream entries of constant step {16, 256, 4096 (divisors of 2^16: a 16-bit cursor cycles), 5} that starts where a reader taking the first section for the PMT starts its stream loop (8 start phases through the PCR_PID), total lengths {4096, 65504, 65688, 66240} (356/357/360 packets), the stream PID of the PMT carried by no entry / the last entry before the 64 KiB mark and the last one / every entry; request lists: {0x65,0x66}, all PIDs NewPMT reports, one present + one absent; additionally at most as many packets out as in and input packets unchanged."+common),
 			c05Scenario("packet-grid", "grid", "packet accessors, modifiers and packet-level PSI helpers on packets with adaptation_field_control 0..3 x adaptation_field_length from 30 boundary values (thorough: all 256) x all 256 flag bytes x private-data length and extension length bytes from {00,01,7F,B0,FF} plus the four values around 'ends exactly on the last byte of the packet' for the given flags, placed where the flags put them."+common),
-			c05Scenario("stream-sequences", "streamseq", "stream readers (Sync, IsSynced, ReadPAT, ReadPMT, IOWriter Write/ReadFrom, the cli pipeline) on every sequence of <=3 packets from a 14-packet alphabet (good PAT/PMT, PMT split 3+rest, null, and single-field corruptions: section_length 0x3FF, pointer_field 0xFF, ES_info_length/program_info_length 0xFFF, adaptation_field_length 0xFF/183, AF-only, no sync byte), whole and — for sequences of <=2 (quick: a subset) — cut at every byte length; default and one-byte-at-a-time readers."+common),
+			c05Scenario("stream-sequences", "streamseq", "stream readers (Sync, IsSynced, ReadPAT, ReadPMT, IOWriter Write/ReadFrom, the cli pipeline) on every sequence of <=3 packets from a 16-packet alphabet (good PAT/PMT, PMT split 3+rest, null, single-field corruptions: section_length 0x3FF, pointer_field 0xFF, ES_info_length/program_info_length 0xFFF, adaptation_field_length 0xFF/183, AF-only, no sync byte; and a two-packet unit on the PMT PID with two complete private sections reaching into the second packet and an incomplete third), whole and — for sequences of <=2 (quick: a subset) — cut at every byte length; default and one-byte-at-a-time readers."+common),
 		},
 	})
 }
